@@ -76,3 +76,21 @@ Lemma ex_named_hypotheses :
   run_named 50 ex_named [6; 0] = ([(true, 7); (false, 49)], OExit 7) /\
   fst (run_x86 10 1000 ex_named_code [6; 0]) = ([(true, 7); (false, 49)], OExit 7).
 Proof. repeat split; try (vm_compute; reflexivity). eexists _, _. vm_compute. reflexivity. Qed.
+
+(* without the arity hypothesis the statement is false: ex_prog (one parameter) called with six arguments:
+   the linear machine refuses to start ("entry-args"), the ISA entry convention has no sixth integer
+   argument register for asm_main ("too-many-arguments"), whatever the fuel *)
+Lemma ex_arity_needed :
+  ~ (forall (p : prog) (lc : N) (cs : list xcode) (n : nat) (lc' : N) (args : list Z) (fuel : nat) (o : obs),
+      int_frag p = true -> plain_names p = true -> lin_check_prog p = true ->
+      x86_compile p lc = Ok (cs, n, lc') -> asm_wf cs = None ->
+      run_linear fuel p args = o -> snd o <> OOutOfFuel ->
+      exists outer inner, fst (run_x86 outer inner cs args) = o).
+Proof.
+  intros H. destruct ex_hypotheses as (A & B & C & (n & lc' & D) & E).
+  destruct (H ex_prog 0%N ex_code n lc' [1; 2; 3; 4; 5; 6] 5%nat _ A B C D E eq_refl) as (outer & inner & R).
+  { vm_compute. discriminate. }
+  unfold run_x86 in R. change (find_label (labels (mk_image ex_code)) "asm_main") with (Some 6%positive) in R.
+  cbv iota beta zeta in R. change (Nat.ltb 5 (List.length [1; 2; 3; 4; 5; 6])) with true in R. cbv iota in R.
+  vm_compute in R. discriminate.
+Qed.
